@@ -828,6 +828,42 @@ func cliSearch(cf *lib.CaseFile, rng *lib.Rng, f lib.Flags) {
 			cases = append(cases, cliCase{kind: "deterministic", query: q, args: []string{q, "-o", format}})
 		}
 	}
+	// table valued function arguments from the expression grammar: every interval argument of every TVF with computed
+	// intervals that are zero, negative, or ordinary (a check that only looks at literals misses the computed ones)
+	intervals := []string{"INTERVAL 1 SECOND - INTERVAL 1 SECOND", "INTERVAL 5 SECONDS * 0", "0 * INTERVAL 1 HOUR", "INTERVAL 1 SECOND - INTERVAL 2 SECONDS",
+		"INTERVAL 1 SECOND * -1", "INTERVAL 0 SECONDS", "INTERVAL 3 SECONDS / 2", "INTERVAL 1 SECOND / 2000000000", "INTERVAL 2 SECONDS", "INTERVAL 1 SECOND + INTERVAL 1 MINUTE"}
+	for _, iv := range intervals {
+		for _, q := range []string{
+			"SELECT * FROM max_diff_watermark(source=>TABLE(ev.csv), max_diff=>INTERVAL 5 SECONDS, time_field=>DESCRIPTOR(t), resolution=>" + iv + ") x",
+			"SELECT * FROM max_diff_watermark(source=>TABLE(ev.csv), max_diff=>" + iv + ", time_field=>DESCRIPTOR(t)) x",
+			"SELECT * FROM tumble(source=>TABLE(ev.csv), window_length=>" + iv + ", time_field=>DESCRIPTOR(t)) x",
+			"SELECT * FROM tumble(source=>TABLE(ev.csv), window_length=>INTERVAL 10 SECONDS, time_field=>DESCRIPTOR(t), offset=>" + iv + ") x",
+		} {
+			cases = append(cases, cliCase{kind: "deterministic", query: q, args: []string{q, "-o", "json"}})
+		}
+	}
+	// WHERE / ON conjuncts of every expression shape above every join kind, optimizer on and off
+	conjuncts := []string{"a.b", "NOT a.b", "a.b OR c.i > 1", "a.b AND c.b", "a.i IN (1, 2)", "a.i NOT IN (0)", "a.i IS NULL", "a.s IS NOT NULL", "COALESCE(a.b, true)",
+		"(a.i, 1) = (c.i, 1)", "a.i > c.i", "a.i + 1 = c.i", "int(a.f) = c.i", "a.i = (SELECT r.i FROM range(start=>0, end=>1) r)", "a.i IN (SELECT r.i FROM range(start=>0, end=>3) r)",
+		"true", "NULL", "a.b = c.b", "a.s LIKE 'a%'", "a.t < now()", "a.b OR (c.b AND a.i = c.i)"}
+	for _, cj := range conjuncts {
+		for _, jk := range []string{"JOIN", "LEFT JOIN", "RIGHT JOIN", "OUTER JOIN", "LOOKUP JOIN"} {
+			qs := []string{
+				"SELECT a.i, c.i FROM small.csv a " + jk + " small.csv c ON a.i = c.i WHERE " + cj,
+				"SELECT a.i, c.i FROM small.csv a " + jk + " small.csv c ON a.i = c.i AND " + cj,
+			}
+			if jk == "JOIN" {
+				qs = append(qs, "SELECT a.i, c.i FROM small.csv a JOIN small.csv c ON "+cj,
+					"SELECT q.x FROM (SELECT a.i AS x, a.b AS b FROM small.csv a JOIN small.csv c ON a.i = c.i) q WHERE q.b")
+			}
+			for _, q := range qs {
+				cases = append(cases, cliCase{kind: "deterministic", query: q, args: []string{q, "-o", "json"}})
+				if jk == "JOIN" {
+					cases = append(cases, cliCase{kind: "deterministic", query: q, args: []string{q, "-o", "json", "--optimize=false"}})
+				}
+			}
+		}
+	}
 	n = len(cases)
 	results := make([]cliResult, n)
 	var wg sync.WaitGroup
